@@ -24,7 +24,10 @@ for mp in sorted(glob.glob(os.path.join(VERIF, "seeded", "*", "meta.json"))):
     confirmed = all(v is True or isinstance(v, str) for v in ok.values()) and ok.get("demo_fails_with_change") is True
     caught = m.get("caught_by", [])
     checks = ", ".join("%s:%s" % (p, "caught" if v["caught"] else ("exit %s" % v["exit"])) for p, v in sorted(m.get("checks_run", {}).items()))
-    rows.append((m["seeded_id"], m["breaks_property"], ", ".join(os.path.basename(f) for f in files), "yes" if confirmed else "NO", checks, m.get("verdict", "")))
+    note = m.get("verdict", "")
+    if m.get("applies_to"):
+        note = (note + " " if note else "") + "applies to " + m["applies_to"]
+    rows.append((m["seeded_id"], m["breaks_property"], ", ".join(os.path.basename(f) for f in files), "yes" if confirmed else "NO", checks, note))
 print("| seeded id | breaks | file(s) | confirmed | checks run (quick tier) | note |")
 print("|---|---|---|---|---|---|")
 for r in rows:
